@@ -234,6 +234,9 @@ func c05Gen(r *Rand, tier string, emit func(op any)) {
 		}
 		for _, s := range shapes {
 			calls := []c05Call{{C: "q"}}
+			if mask&1 == 1 {
+				calls = append(calls, c05Call{C: "sync"})
+			}
 			for _, l := range []int{-1, 0, 1, 2, 3, 4, 5, 6, -2} {
 				calls = append(calls, c05Call{C: "log", FE: "Logger.Log", L: l, Fs: kf(91)})
 			}
@@ -281,6 +284,9 @@ func c05Gen(r *Rand, tier string, emit func(op any)) {
 		}
 		tree := g.node(1 + r.Intn(maxDepth))
 		calls := []c05Call{{C: "q"}}
+		if i%3 == 0 {
+			calls = append(calls, c05Call{C: "sync"}) // before anything was logged: lazy cores are still unbuilt
+		}
 		if i%40 == 0 {
 			all := make([]int, 0, 256)
 			for l := -128; l <= 127; l++ {
@@ -296,6 +302,9 @@ func c05Gen(r *Rand, tier string, emit func(op any)) {
 			t := r.Intn(9) - 2
 			calls = append(calls, c05Call{C: "set", I: k, T: t}, c05Call{C: "q"})
 			calls = append(calls, g.logCalls(fes, []int{-1, 0, 1, 2, 3, 4, 5, Pick(r, []int{-7, 6, 9})}, 2)...)
+		}
+		if i%2 == 0 {
+			calls = append(calls, c05Call{C: "sync"})
 		}
 		emit(c05Op{K: "tree", Tree: tree, Atomics: g.atomics, Dev: r.Bool(), Calls: calls})
 	}
@@ -407,6 +416,27 @@ func c05Exec(raw json.RawMessage) Result {
 			spec.atomics[call.I] = call.T
 			changed = true
 			results = append(results, map[string]any{"c": "set"})
+		case "sync":
+			// Logger.Sync must reach the sink of every io leaf through every wrapper (a lazy core is initialised by it)
+			_ = lg.Sync()
+			seq := w.rec.take()
+			_ = w.drainObs()
+			var synced, want []int
+			for _, e := range seq {
+				if strings.HasPrefix(e, "y") {
+					id, _ := strconv.Atoi(e[1:])
+					synced = append(synced, id)
+				}
+			}
+			for _, p := range paths {
+				if p.io {
+					want = append(want, p.leaf)
+				}
+			}
+			if fmt.Sprint(synced) != fmt.Sprint(want) {
+				fail(bad("C05:sync-skipped-leaf", "%s: Logger.Sync synced the sinks of io leaves %v, want %v", where, synced, want))
+			}
+			results = append(results, map[string]any{"c": "sync", "seq": seq})
 		case "q":
 			bm := enabledBitmap(lg.Core())
 			lo := int(zapcore.LevelOf(lg.Core()))
